@@ -5,7 +5,8 @@ EXPLANATION = ("For gix-pack's .idx and multi-pack-index code: layout constants 
                "MIDX chunk ids); the writer's large-offset threshold and high-bit constants agree with the readers' masks and each is used in "
                "the expected operator context (writer: `>` threshold and `|` high bit; readers: `&` and `^` high bit); every MIDX chunk id and "
                "both signatures are referenced by both the writer and the reader; both index kinds delegate lookup and prefix lookup to the one "
-               "shared bisection in index::access. Agreement of bisection with a linear scan over all indices is not decided.")
+               "shared bisection in index::access. Both fan-out bisections start their lower bound at the constant 0 for first byte 0 "
+               "(shared rule with the commit-graph lookup). Agreement of bisection with a linear scan over all indices is not decided.")
 P = "gix_pack::"
 SPEC_INT = {"index::FAN_LEN": 256, "index::access::N32_SIZE": 4, "index::access::N64_SIZE": 8, "index::access::V1_HEADER_SIZE": 1024,
             "index::access::V2_HEADER_SIZE": 1032, "index::access::N32_HIGH_BIT": 1 << 31, "index::encode::HIGH_BIT": 1 << 31,
@@ -63,3 +64,7 @@ def run(db, chk):
         f = db.one(nm)
         chk.ob("shared-bisection", f.name.split("gix_pack::")[-1], any(callee in c.names for c in f.calls()), "must delegate to %s" % callee, "%s:%d" % (f.file, f.line), key="shared-bisection|" + f.name)
     chk.set("constants_checked", len(SPEC_INT) + len(SPEC_BYTES))
+    # fan-out bisection bounds (shared rule with C14)
+    from props import _fan
+    for pat, label in ((r"^gix_pack::index::access::lookup$", "index::access::lookup"), (r"^gix_pack::index::access::lookup_prefix$", "index::access::lookup_prefix")):
+        _fan.fan_bounds(chk, db.one(pat), label)
